@@ -22,6 +22,11 @@ def case(rng):
         else:
             key = ('m%d' % i,)
         mods.append({'key': key, 'i': i, 'pkg': False})
+    nested = [m for m in mods if len(m['key']) > 1]
+    if nested and r.random() < 0.3:
+        # a flat module whose name is the concatenation of a nested module's path segments
+        twin = r.choice(nested)
+        mods.insert(r.randint(0, len(mods)), {'key': (''.join(twin['key']),), 'i': 2000 + len(mods), 'pkg': False})
     # order = dependency order: a module may import only modules earlier in the list
     u = [0]
 
@@ -92,8 +97,15 @@ def case(rng):
             kind = r.choice(['let', 'fn', 'fn', 'class'])
             sym = '%s_%s%d' % (name, kind[0], k)
             exported = r.random() < 0.75
+            lets_here = [x for x, kk in info['exports'].items() if kk == 'let']
             if kind == 'let':
                 d = Let(sym, Num(uniq()))
+            elif kind == 'fn' and lets_here and r.random() < 0.4:
+                # reassigns one of the module's own exported variables: imports made afterwards see the new value,
+                # module objects handed out earlier keep the value they were built with
+                tgt = r.choice(lets_here)
+                d = Fn(sym, [], [ExprS(Assign(Var(tgt), Bin('+', Var(tgt), Num(100)))), Return(Var(tgt))])
+                tags.add('export:fn_reassigns_export')
             elif kind == 'fn':
                 # reads and modifies private state: visible only through the export
                 d = Fn(sym, [], [ExprS(Assign(Var(priv), Bin('+', Var(priv), Num(1)))), Return(Var(priv))])
@@ -110,6 +122,7 @@ def case(rng):
         asts[m['key']] = stmts
     # main: imports in random order, multiplicity and form
     main = [Print([Str('main start')])]
+    aliases = {}
     order = [x for x in infos if True]
     seq = [r.choice(order) for _ in range(r.randint(2, 8))]
     for dep in seq:
@@ -130,9 +143,17 @@ def case(rng):
             tags.add('main:symbols')
         else:
             main.append(Import(path, alias=al))
+            earlier = aliases.setdefault(dep['key'], [])
+            for s, kind in syms:
+                if kind == 'let' and r.random() < 0.3:
+                    # a write to this import's module object, then what every object of the same module shows
+                    main.append(ExprS(Assign(Prop(Var(al), s), Num(uniq() * 1000))))
+                    main.append(Print([Str('main wrote ' + s)] + [Prop(Var(a0), s) for a0 in earlier + [al]]))
+                    tags.add('main:module_field_write')
+            earlier.append(al)
             for s, kind in syms:
                 if kind == 'let':
-                    main.append(Print([Str('main sees ' + s), Prop(Var(al), s)]))
+                    main.append(Print([Str('main sees ' + s)] + [Prop(Var(a0), s) for a0 in earlier]))
                 elif kind == 'fn':
                     main.append(Print([Str('main calls ' + s), Call(Prop(Var(al), s), [])]))
                 else:
